@@ -77,6 +77,8 @@ def configs(tier):
     for mode in ('static', 'dynamic'):
         add(d=2, q=2, m=2, mode=mode, imputer='joint', storage='batch', labels=2)
         add(d=2, q=1, m=2, mode=mode, imputer='joint', storage='batch', bigger=True)
+        for metric in ('MAE', 'MSE'):
+            add(d=2, q=2, m=2, mode=mode, imputer='joint', storage='batch', loss='river:' + metric)
         add(d=2, q=2, m=2, mode=mode, imputer='joint', storage='batch', loss_type='int')
         add(d=2, q=2, m=2, mode=mode, imputer='joint', storage='batch', loss_type='np')
         add(d=2, q=2, m=2, mode=mode, imputer='joint', storage='batch', labels=2, varlabels=True, _cost=4000)
